@@ -146,7 +146,7 @@ class InterpBase:
         if h == "const":
             return t[1] is not None
         if h in ("inst", "enum", "cls", "tuple", "list", "set", "dict", "fn", "closure", "lambda", "str", "bin",
-                 "slice", "fmt", "comp", "gen"):
+                 "slice", "fmt", "comp", "gen", "given"):
             return True
         tys = self.ty(v)
         if tys and all(x[0] in ("obj", "cls", "h5", "mod") for x in tys) and h in ("lres", "self", "new"):
